@@ -503,7 +503,7 @@ GLUE_Z = ("data, loc_method='median', scale_method='mad', axis=0", [
     "loc = np.zeros(1, dtype=data.dtype) if loc_method == 'norm' else estimate_loc(data, loc_method, axis, keepdims=True)",
     "scale = np.ones(1, dtype=data.dtype) if scale_method == 'norm' else estimate_scale(data, scale_method, axis, keepdims=True)",
     "zscores = np.subtract(data, loc, dtype=np.float32)",
-    "tiny = np.finfo(np.float32).eps * np.max(np.abs(zscores), axis=axis, keepdims=True)",
+    "tiny = float(np.finfo(np.float32).tiny) * np.max(np.abs(zscores), axis=axis, keepdims=True).astype(np.float64)",
     "zero_scales = scale <= tiny",
     "if np.any(zero_scales):\n    scale = np.where(zero_scales, 1, scale)",
     "np.divide(zscores, scale, out=zscores)",
@@ -521,7 +521,7 @@ Definition estimate_zscore (data : nd) (loc_method_ : loc_method) (scale_method_
     | Some scale =>
         let scale := memo scale in
         let zscores := memo (np_sub data loc) in
-        let tiny := memo (np_mul (scalar float32_eps) (np_reduce max1 (np_abs zscores) axis true)) in
+        let tiny := memo (np_mul (scalar float32_tiny) (np_reduce max1 (np_abs zscores) axis true)) in
         let zero_scales := memo (np_le scale tiny) in
         let scale := if np_any zero_scales then memo (np_where zero_scales (scalar (qz 1)) scale) else scale in
         let zscores := memo (np_div zscores scale) in
